@@ -91,7 +91,8 @@ PLAN = {
                        weights={"StartActionT": 3.0, "LogM": 3.0}),
                   # dictionaries handed directly to Logger.write while global fields are in force (the defensive copy)
                   dict(feat={"typed", "succ", "finish", "raw", "dests"}, ndest=3, init=[1], sfault=0.2, maxlen=30,
-                       weights={"AddGlobal": 2.5, "RawWrite": 3.0, "AddDests": 0.3, "RemoveDest": 0.1})]),
+                       weights={"AddGlobal": 2.5, "RawWrite": 3.0, "AddDests": 0.3, "RemoveDest": 0.1})],
+        extra="c13_concurrent", keep_sizes=True),
 }
 
 def capacity_histories(tier):
